@@ -455,8 +455,8 @@ def run(ctx):
     quick = ctx.tier == "quick"
     lattice = model_check(ctx)
     nst = selftest(ctx)
-    nmain = 64 if quick else 1400
-    nmixed = 8 if quick else 100
+    nmain = 96 if quick else 3600
+    nmixed = 12 if quick else 240
     jobs = []
     for i in range(nmain):
         seed = ctx.seed * 100003 + i
